@@ -112,6 +112,21 @@ func emitMarkers(w *bufio.Writer, s string) {
 			hxs(string(rs.Redact().Redact())))
 	})
 	fmt.Fprintln(w, sx("markers", hxs(s), out))
+	// the conversions return values: later writes to the bytes they were made from do not change them
+	if len(s) > 0 {
+		b := []byte(s)
+		str := redact.RedactableBytes(b).ToString()
+		back := redact.RedactableString(s).ToBytes()
+		for i := range b {
+			b[i] = 'Z'
+		}
+		ok := string(str) == s && string(back) == s
+		for i := range back {
+			back[i] = 'Y'
+		}
+		ok = ok && string(str) == s
+		fmt.Fprintf(w, "(qtrue C07 %s %s %s)\n", hxs("ToString/ToBytes results alias the bytes they were converted from"), b01(ok), hxs(s))
+	}
 }
 
 func genMarkers(w *bufio.Writer, rng *prng, maxLen, nRandom int) {
